@@ -2,7 +2,7 @@
 import json
 import random
 
-from corr_e import POOL, EWorld, all_fdeps, gen_dep_type, tri
+from corr_e import POOL, EWorld, all_fdeps, gen_applicable_type, gen_dep_type, tri
 from world import C_BOOL, C_DICT, C_INT, C_LIST, C_OBJECT, C_STR, C_TUPLE, NBUILTIN, make_world
 
 
@@ -27,7 +27,7 @@ def gen_dep_fn_scenario(rng: random.Random, steer=None):
                 else:
                     t = ["cls", rng.choice([C_INT, C_OBJECT])]
             elif r < 0.6:
-                t = gen_dep_type(rng, ew, focus[j])
+                t = gen_applicable_type(rng, ew, focus[j]) if rng.random() < 0.8 else gen_dep_type(rng, ew, focus[j])
             else:
                 supers = [c for c in range(w.n) if w.tables_cache["sub"][focus[j]][c]]
                 t = ["cls", rng.choice(supers + [C_INT, C_STR])]
